@@ -27,8 +27,30 @@ def rmw_tests(f, G):
             for v in e['vars']:
                 init = v.get('init') or {}
                 if init.get('op') == 'call' and 'eid' in init: var2eid[v['var']] = init['eid']
+    # bool locals holding the comparison:  const bool last = x.fetch_sub(1) == 1;  ... if (!last)
+    var2cmp = {}
+    def cmp_of(c):
+        if isinstance(c, dict) and c.get('op') == 'bin' and c.get('o') in ('==', '!='):
+            for a, b in ((c['l'], c['r']), (c['r'], c['l'])):
+                k = _lit(b)
+                if k is None: continue
+                eid = a.get('eid') if a.get('op') == 'call' else var2eid.get(a.get('p')) if a.get('op') == 'path' else None
+                if eid in eid2node and G.ev[eid2node[eid]]['callee'].get('name') in ('fetch_sub', 'fetch_add'): return (eid, c['o'], k)
+        return None
+    for n, e in G.ev.items():
+        if e.get('k') == 'decl':
+            for v in e['vars']:
+                cc = cmp_of(v.get('init'))
+                if cc: var2cmp[v['var']] = cc
     for tn, t in G.ev.items():
         if t.get('k') != 'term' or t.get('cond') is None: continue
+        c0 = t['cond']; pol = True
+        while isinstance(c0, dict) and c0.get('op') == 'un' and c0.get('o') == '!': c0 = c0['e']; pol = not pol
+        if isinstance(c0, dict) and c0.get('op') == 'path' and c0.get('p') in var2cmp:
+            eid, op, k = var2cmp[c0['p']]
+            if not pol: op = '!=' if op == '==' else '=='
+            out.append((eid2node[eid], G.ev[eid2node[eid]], tn, op, k))
+            continue
         def walk(c):
             if not isinstance(c, dict): return
             if c.get('op') == 'bin' and c.get('o') in ('==', '!=', '<', '<=', '>', '>='):
